@@ -22,6 +22,35 @@ WHEELS = '/opt/veriftools/wheels'
 NPROC = min(16, os.cpu_count() or 1)
 
 
+class CaseTimeout(KeyboardInterrupt):
+    """Raised by the per-example alarm (a KeyboardInterrupt subclass so that `except Exception` blocks in the checks, which
+    turn exceptions of the code under test into violations, never see it)."""
+
+
+class _case_alarm:
+    def __init__(self, seconds):
+        self.seconds = seconds
+
+    def __enter__(self):
+        import signal, threading
+
+        self.active = self.seconds > 0 and threading.current_thread() is threading.main_thread() and hasattr(signal, 'SIGALRM')
+        if self.active:
+            def handler(signum, frame):
+                raise CaseTimeout()
+            self.old = signal.signal(signal.SIGALRM, handler)
+            signal.alarm(self.seconds)
+        return self
+
+    def __exit__(self, *exc):
+        import signal
+
+        if self.active:
+            signal.alarm(0)
+            signal.signal(signal.SIGALRM, self.old)
+        return False
+
+
 class HarnessError(Exception):
     """Infrastructure failure (exit 2, never a VIOLATION)."""
 
@@ -313,7 +342,8 @@ def run_given(stats: Stats, seed_val: int, max_examples: int, strategy, body, sh
     import hypothesis
     from hypothesis import given
 
-    state = {'failed': False, 'skipped': 0}
+    state = {'failed': False, 'skipped': 0, 'timeouts': 0}
+    case_limit = int(float(os.environ.get('VERIF_CASE_LIMIT_S', '0')) or (90 if os.environ.get('VERIF_TIER_ACTIVE', 'quick') == 'quick' else 400))
     if budget_s is None:
         budget_s = float(os.environ.get('VERIF_BUDGET_S', '0')) or (150.0 if os.environ.get('VERIF_TIER_ACTIVE', 'quick') == 'quick' else 2400.0)
     t_start = time.time()
@@ -330,7 +360,13 @@ def run_given(stats: Stats, seed_val: int, max_examples: int, strategy, body, sh
             return
         try:
             try:
-                body(case, stats if not state['failed'] else Stats())
+                with _case_alarm(case_limit):
+                    body(case, stats if not state['failed'] else Stats())
+            except CaseTimeout:
+                # safety net next to the size bounds: a single example that runs longer than the per-example limit is
+                # abandoned and counted - inconclusive for that input, never a violation
+                state['timeouts'] += 1
+                return
             except (Violation, HarnessError):
                 raise
             except Exception as e:  # noqa: BLE001 - classified by origin
@@ -359,6 +395,8 @@ def run_given(stats: Stats, seed_val: int, max_examples: int, strategy, body, sh
             raise
     if state['skipped']:
         stats.excluded['examples-skipped-after-time-budget'] += state['skipped']
+    if state['timeouts']:
+        stats.excluded['examples-abandoned-after-%ds-per-example-limit-(inconclusive)' % case_limit] += state['timeouts']
 
 
 def run_machine(stats: Stats, seed_val: int, max_examples: int, steps: int, machine_cls) -> None:
